@@ -69,7 +69,9 @@ def gen_plan(wl, fr, idx):
                         'return_samples': wl.random() < 0.6}
         plan['prefit'] = wl.random() < 0.4
     plan['n_jobs'] = wl.choice(sorted({1, 2, 3, max(1, R - 1), R, R + 1, 2 * R + 1}) + [-1])
-    if wl.random() < 0.25:
+    if R >= 7 and wl.random() < 0.5:
+        plan['n_jobs'] = wl.choice((1, 2))             # many rows per worker
+    if wl.random() < (0.4 if R >= 7 else 0.25):
         plan['array_variant'] = wl.choice(('fortran', 'strided', 'f32', 'swapview', 'revview'))
     plan['positional'] = wl.random() < 0.3          # documented parameter order is API too
     plan['precall'] = entry == 'function' and wl.random() < 0.25
